@@ -10,6 +10,13 @@ another key's hidden ordinal suffix.  Model = dict of str / list / ordered set. 
 value must equal the model's, and after every operation ALL keys of the universe are read back
 (get, getFirst, getLast, cnt, getItemIter) and compared: an operation on one key never changes
 what another key returns.
+
+The ordinal separator of the two insertion ordered stores is a documented constructor parameter
+(`ionsep`, default '.'): it is a dimension of the case ("ionsep", absent = '.').  With another
+separator S the key universe is the same one written with S ('a', 'aSb', 'aSbSc', 'aS', ...) plus
+'a.b' (a key with the default separator), and the suffix-shaped class is 'aS<32 hex digits>'.
+A case may also ask ("reads": "stmt") for a read-back that uses nothing but the operations the
+statement names (get and count), so that a defect of pop is not hidden behind getFirst / getLast.
 """
 import os
 import shutil
@@ -27,11 +34,16 @@ RULE = ("cases (incl. a queue-like class: 3 keys, front pops interleaved with ap
         "rem(val), cnt) over a 12 key universe: a, b, ab, a.b, a.b.c, a_b, ('a','b') (same key as a_b), a., a.c, b.a, c, and - in "
         "the 'suffix-shaped' class only - a.<32 hex digits> keys; 5 values; non-trivial = the history touches two keys where one "
         "is a proper prefix of the other and both hold >= 2 values at some point (Suber: both hold a value); distinct = "
-        "canonical hash")
+        "canonical hash; further classes: IoSuber / IoSetSuber built with another ordinal separator ionsep in '-', '|', '_', ':' "
+        "over the same universe written with that separator plus 'a.b' (free histories with the full read-back; histories of "
+        "the statement's own operations put / pin / add / get / pop / rem / cnt with a get + cnt read-back; suffix-shaped keys "
+        "a<ionsep><32 hex digits>)")
 ASSUMPTIONS = [
     "keys are non-empty text without NUL; values are non-empty text (an empty value means 'all values' in IoSetSuber.rem)",
     "a tuple key and its '_' joined string are the same key by design (documented key combining), the model joins them too",
     "one fresh persistent Duror per case in a sandbox under /verif/.work, filesystem calls guarded by vlib/fsbox",
+    "the ordinal separator given to IoSuber / IoSetSuber is one punctuation character that cannot occur in a hex number "
+    "('.', '-', '|', '_', ':'); '_' is also the default separator of key parts",
 ]
 
 TOP = os.path.join(WORK, "C24.%d" % os.getpid())
@@ -53,18 +65,37 @@ def karg(k):
 
 
 NEUTRAL = ["s0", "s1", "s2", "s3"]      # stand-ins with the same positions as SUFFIXY
+IONSEPS = ["-", "|", "_", ":"]          # ordinal separators other than the default '.'
+
+
+def _keys(sep):
+    """The 12 ordinary keys for a store whose ordinal separator is sep (same positions as KEYS)."""
+    if sep == ".":
+        return list(KEYS)
+
+    def swap(k):
+        return [swap(p) for p in k] if isinstance(k, list) else k.replace(".", sep)
+    keys = [swap(k) for k in KEYS]
+    keys[9] = "a.b"     # instead of 'b<sep>a': a key that extends 'a' with the DEFAULT separator
+    return keys
+
+
+def _suffixy(sep):
+    """Keys whose tail after the store's ordinal separator looks like a 32 hex digit ordinal (the known open shape)."""
+    return [k.replace(".", sep) for k in SUFFIXY]
 
 
 def run_case(case):
-    r = _run(case, KEYS + (SUFFIXY if case["suffixy"] else []))
+    sep = case.get("ionsep", ".")
+    r = _run(case, _keys(sep) + (_suffixy(sep) if case["suffixy"] else []))
     if case["suffixy"] and r.failures:
         # attribute: the same history with the suffix-shaped keys replaced by ordinary keys
-        r2 = _run(case, KEYS + NEUTRAL)
+        r2 = _run(case, _keys(sep) + NEUTRAL)
         if not r2.failures:
             first = r.failures[0]
             r.failures = []
             r.fail("C24/suffix-shaped-key-interference", "the history fails only with keys shaped like another key's ordinal "
-                   "suffix (a.<32 hex>): %s: %s" % (first.sig, first.detail))
+                   "suffix (a%s<32 hex>): %s: %s" % (sep, first.sig, first.detail))
     return r
 
 
@@ -75,11 +106,16 @@ def _run(case, universe):
     os.makedirs(BOX)
     db = during.Duror(name="kv", headDirPath=BOX, temp=False, reopen=True)
     cls = {"suber": during.Suber, "io": during.IoSuber, "ioset": during.IoSetSuber}[kind]
-    sdb = cls(db=db, subkey="docs.")
+    sep = case.get("ionsep", ".")
+    stmt = case.get("reads", "all") == "stmt"    # read back with the statement's own operations only (get, count)
+    if kind == "suber" or sep == ".":
+        sdb = cls(db=db, subkey="docs.")
+    else:
+        sdb = cls(db=db, subkey="docs.", ionsep=sep)
     other = during.IoSuber(db=db, subkey="zz.")      # a second sub database must never be affected
     other.put("a", ["keep"])
     model = {}
-    tag = ""
+    tag = "" if (kind == "suber" or sep == ".") else "/ionsep"
     big = set()
 
     def readback(step):
@@ -98,6 +134,12 @@ def _run(case, universe):
             if got != exp:
                 r.fail("C24/%s-readback-get%s" % (kind, tag), "after step %s: get(%r)=%r model %r" % (step, ka, got, exp))
                 return False
+            if stmt:
+                c = sdb.cnt(ka)
+                if c != len(exp):
+                    r.fail("C24/%s-readback-cnt%s" % (kind, tag), "after step %s: cnt(%r)=%r model %r" % (step, ka, c, exp))
+                    return False
+                continue
             f, l, c = sdb.getFirst(ka), sdb.getLast(ka), sdb.cnt(ka)
             if f != (exp[0] if exp else None):
                 r.fail("C24/%s-readback-getFirst%s" % (kind, tag), "after step %s: getFirst(%r)=%r model %r" % (step, ka, f, exp))
@@ -109,6 +151,11 @@ def _run(case, universe):
             if c != len(exp):
                 r.fail("C24/%s-readback-cnt%s" % (kind, tag), "after step %s: cnt(%r)=%r model %r" % (step, ka, c, exp))
                 return False
+        if stmt:
+            if other.get("a") != ["keep"]:
+                r.fail("C24/other-subdb-changed", "after step %s" % step)
+                return False
+            return True
         # whole store scan: per key subsequences
         items = list(sdb.getItemIter())
         per = {}
@@ -224,20 +271,41 @@ def _run(case, universe):
     pref = any(a != b and b.startswith(a) for a in big for b in big)
     r.nontrivial = pref
     r.labels.append(kind + ("/suffixy" if case["suffixy"] else ""))
+    if tag:
+        r.labels.append("ionsep=" + sep + ("/stmt-reads" if stmt else ""))
     if pref:
         r.labels.append("prefix-related-keys-populated")
     return r
 
 
-def _strategy(kind=None, suffixy=False):
+def _strategy(kind=None, suffixy=False, seps=None):
     vals = st.lists(st.sampled_from(VALS), min_size=1, max_size=3)
     names = ["add", "add", "add", "put", "put", "pin", "pop", "rem", "remval", "get", "getLast", "getFirst", "cnt"]
     op = st.tuples(st.sampled_from(names), st.integers(0, 15), vals).map(list)
     # weight the colliding keys a, a.b, a.b.c, a_b, a.
     hot = st.tuples(st.sampled_from(names), st.sampled_from([0, 3, 4, 5, 7, 8, 12, 13, 14, 15]), vals).map(list)
+    if seps:
+        # stores built with another ordinal separator (only the insertion ordered kinds have one); key 9 is 'a.b'
+        hot9 = st.tuples(st.sampled_from(names), st.sampled_from([0, 3, 4, 5, 7, 8, 9, 9, 12, 13, 14, 15]), vals).map(list)
+        return st.fixed_dictionaries({"kind": st.sampled_from(["io", "ioset"]) if kind is None else st.just(kind),
+                                      "suffixy": st.just(suffixy),
+                                      "ionsep": st.sampled_from(seps),
+                                      "ops": st.lists(st.one_of(op, hot9, hot9), min_size=1, max_size=40)})
     return st.fixed_dictionaries({"kind": st.sampled_from(["suber", "io", "io", "ioset", "ioset"]) if kind is None else st.just(kind),
                                   "suffixy": st.just(suffixy),
                                   "ops": st.lists(st.one_of(op, hot, hot), min_size=1, max_size=40)})
+
+
+def _stmt_strategy(seps):
+    """Another ordinal separator, and nothing but the operations the statement names: put, pin, add, get, pop, remove
+    (whole key / one member of a set) and count, read back with get and count.  Few keys ('a', 'aSb', 'a_b', 'a.b', 'aS'),
+    front pops weighted, so that what pop returns and what it leaves behind for every key is what gets judged."""
+    vals = st.lists(st.sampled_from(VALS), min_size=1, max_size=3)
+    names = ["put", "put", "add", "add", "pop", "pop", "pop", "pin", "rem", "remval", "get", "cnt"]
+    op = st.tuples(st.sampled_from(names), st.sampled_from([0, 0, 3, 5, 9, 9, 7]), vals).map(list)
+    return st.fixed_dictionaries({"kind": st.sampled_from(["io", "ioset"]), "suffixy": st.just(False),
+                                  "ionsep": st.sampled_from(seps), "reads": st.just("stmt"),
+                                  "ops": st.lists(op, min_size=2, max_size=30)})
 
 
 def _queue_strategy():
@@ -254,7 +322,10 @@ def searches(tier):
     q = tier == "quick"
     return [("histories", _strategy(), 800 if q else 3000),
             ("queue-like", _queue_strategy(), 500 if q else 2500),
-            ("suffix-shaped-keys", _strategy(suffixy=True), 200 if q else 1500)]
+            ("suffix-shaped-keys", _strategy(suffixy=True), 200 if q else 1500),
+            ("other-ordinal-separator/statement-operations", _stmt_strategy(IONSEPS), 200 if q else 1000),
+            ("other-ordinal-separator", _strategy(seps=IONSEPS), 300 if q else 1500),
+            ("other-ordinal-separator/suffix-shaped-keys", _strategy(suffixy=True, seps=IONSEPS), 100 if q else 500)]
 
 
 def extra(ck):
